@@ -61,14 +61,21 @@ def initPrim : Prim → St
   | .str => .s []
   | .byts => .s []
 
-/-- initial ("new") state of a value of type `ty`. -/
+/-- initial ("new") state of a value of type `ty`. An optional field of composite type is absent in
+    a new struct; its slot holds a placeholder that is never shown (`dump` prints `_`) and is
+    replaced by the field type's own new state when the field becomes present (`decodeFields`).
+    This keeps the new state of recursive schemas (recursion through optional fields) finite. -/
 def initSt (σ : Schema) : Nat → Ty → St
   | 0, _ => .oneof 0 none
   | _, .prim p _ => initPrim p
   | _, .arr _ => .arr []
   | fuel + 1, .ref n =>
     match σ.find n with
-    | some (.struct _ fs) => .struct 0 (fs.map (fun fd => initSt σ fuel fd.ty))
+    | some (.struct _ fs) => .struct 0 (fs.map (fun fd =>
+        match fd.optional, fd.ty with
+        | true, .ref _ => .oneof 0 none
+        | true, .arr _ => .arr []
+        | _, _ => initSt σ fuel fd.ty))
     | some (.oneof _) => .oneof 0 none
     | some (.mmap _ _) => .mmap []
     | none => .oneof 0 none
@@ -383,10 +390,10 @@ def decodeNode (σ : Schema) : Nat → List (String × Node) → Node → St →
       let (mask, rest) ← needBits (readBits kept c.bits)
       let (pres, rest) ← needBits (readBits optCount rest)
       let ds := ds.setCol col { c with bits := rest }
-      let (curFields, _) := match cur with
+      let (curFields, curPres) := match cur with
         | .struct p fs => (fs, p)
         | _ => ([], 0)
-      let (newFields, ds) ← decodeFields σ fuel env fields 0 0 mask.toNat pres.toNat curFields ds
+      let (newFields, ds) ← decodeFields σ fuel env fields 0 0 mask.toNat pres.toNat curPres curFields ds
       let v := St.struct pres.toNat newFields
       match dict with
       | none => .ok (v, ds)
@@ -436,16 +443,20 @@ def decodeNode (σ : Schema) : Nat → List (String × Node) → Node → St →
       let (ps, ds) ← decodeValuesOnly σ fuel env v (x >>> 1).toNat 0 old ds
       .ok (.mmap ps, ds)
 
-def decodeFields (σ : Schema) : Nat → List (String × Node) → List (Bool × Node) → Nat → Nat → Nat → Nat →
+def decodeFields (σ : Schema) : Nat → List (String × Node) → List (Bool × Node) → Nat → Nat → Nat → Nat → Nat →
     List St → DS → R (List St × DS)
-  | 0, _, _, _, _, _, _, _, _ => .error "fuel"
-  | _ + 1, _, [], _, _, _, _, cur, ds => .ok (cur, ds)       -- fields beyond the kept ones stay as they are
-  | fuel + 1, env, (opt, n) :: rest, idx, optIdx, mask, pres, cur, ds => do
-    let prev := cur.headD (.oneof 0 none)
+  | 0, _, _, _, _, _, _, _, _, _ => .error "fuel"
+  | _ + 1, _, [], _, _, _, _, _, cur, ds => .ok (cur, ds)       -- fields beyond the kept ones stay as they are
+  | fuel + 1, env, (opt, n) :: rest, idx, optIdx, mask, pres, prevPres, cur, ds => do
+    let prev0 := cur.headD (.oneof 0 none)
     let modified := mask.testBit idx
     let present := !opt || pres.testBit optIdx
-    let (v, ds) ← if modified && present then decodeNode σ fuel env n prev ds else pure (prev, ds)
-    let (vs, ds) ← decodeFields σ fuel env rest (idx + 1) (if opt then optIdx + 1 else optIdx) mask pres cur.tail ds
+    -- implementation note (struct decoder): an optional field of a non-primitive type that was
+    -- absent in the previous instance and is present (and encoded) now starts from the "new" state
+    let isPrim := match n with | .prim _ _ _ => true | _ => false
+    let prev := if opt && !isPrim && !(prevPres.testBit optIdx) then altInit σ n else prev0
+    let (v, ds) ← if modified && present then decodeNode σ fuel env n prev ds else pure (prev0, ds)
+    let (vs, ds) ← decodeFields σ fuel env rest (idx + 1) (if opt then optIdx + 1 else optIdx) mask pres prevPres cur.tail ds
     .ok (v :: vs, ds)
 
 def decodeElems (σ : Schema) : Nat → List (String × Node) → Node → Ty → Nat → List St → DS → R (List St × DS)
